@@ -11,3 +11,6 @@ def get_check(pid: str) -> Any:
         mod = importlib.import_module(f"sim.checks.{pid.lower()}")
         _cache[pid] = mod.CHECK
     return _cache[pid]
+
+
+ALL_IDS = ["C01", "C02", "C03", "C04", "C05", "C06", "C07", "C08", "C09", "C10", "C11", "C12", "C16", "C17", "C18", "C19", "C20"]
